@@ -19,13 +19,15 @@ Hypothesis Hend : 0 <= rp_end p.
 Variable Inv : rconfig -> Prop.
 Hypothesis Hstep : forall c c', Inv c -> rstep p eh c = RContinue c' -> Inv c'.
 Hypothesis Hred : forall c, Inv c -> exists n, reduces_for p n (rc_x c) = false.
+(* end-of-input is only shifted into the end state, on the configurations of the invariant *)
+Hypothesis Heoi : forall c q, Inv c -> m_act m (xc_state (rc_x c)) 0 [] = Shift q -> q = rp_end p.
 
 Lemma rsteps_inv k c c' : rsteps p eh k c c' -> Inv c -> Inv c'.
 Proof. induction 1 as [c | k c c1 c' Hne Hst _ IH]; intros H; [exact H|]. apply IH. eapply Hstep; eauto. Qed.
 
-Theorem rrun_terminates_inv : eoi_ends p -> forall c, Inv c -> exists f, fst (rrun_loop f p eh c) <> RFuel.
+Theorem rrun_terminates_inv : forall c, Inv c -> exists f, fst (rrun_loop f p eh c) <> RFuel.
 Proof.
-  intros Heoi c Hinv.
+  intros c Hinv.
   remember (length (xc_input (rc_x c))) as n eqn:En.
   assert (Hn : (length (xc_input (rc_x c)) <= n)%nat) by lia. clear En.
   revert c Hn Hinv. induction n as [n IHn] using lt_wf_ind. intros c Hn Hinv.
@@ -34,11 +36,11 @@ Proof.
      m_act m (xc_state (rc_x c2)) (t_sym (next_tok eoi (xc_input (rc_x c2)))) [] = Shift q ->
      rstep p eh c2 = RContinue c3 -> xc_state (rc_x c3) = q ->
      xc_input (rc_x c3) = (if t_sym (next_tok eoi (xc_input (rc_x c2))) =? 0 then xc_input (rc_x c2) else tl (xc_input (rc_x c2))) ->
-     Inv c3 ->
+     Inv c2 -> Inv c3 ->
      exists f, fst (rrun_loop f p eh c2) <> RFuel).
-  { intros c2 q c3 Hne2 Hlen2 Hq Hstep2 Hst3 Hin3 Hinv3. apply Z.eqb_neq in Hne2.
+  { intros c2 q c3 Hne2 Hlen2 Hq Hstep2 Hst3 Hin3 Hinv2 Hinv3. apply Z.eqb_neq in Hne2.
     destruct (t_sym (next_tok eoi (xc_input (rc_x c2))) =? 0) eqn:E0.
-    - apply Z.eqb_eq in E0. rewrite E0 in Hq. apply Heoi in Hq. exists 2%nat.
+    - apply Z.eqb_eq in E0. rewrite E0 in Hq. apply (Heoi c2 q Hinv2) in Hq. exists 2%nat.
       change (rrun_loop 2 p eh c2) with (if xc_state (rc_x c2) =? rp_end p then (RAccept, c2)
         else match rstep p eh c2 with RContinue c' => rrun_loop 1 p eh c' | RStop o c' => (o, c') end).
       rewrite Hne2, Hstep2. apply accept_now. congruence.
@@ -64,7 +66,7 @@ Proof.
       assert (Hgo : exists f2, fst (rrun_loop f2 p eh c2) <> RFuel).
       { destruct Hfin as [Hfin|(q & c3 & Hq & Hs3 & Hst3 & _ & Hin3)]; [exists 1%nat; apply accept_now; exact Hfin|].
         destruct (Z.eq_dec (xc_state (rc_x c2)) (rp_end p)) as [E2|E2]; [exists 1%nat; apply accept_now; exact E2|].
-        apply (Hshift c2 q c3); auto; try (rewrite Hin2; auto). lia. eapply Hstep; eauto. }
+        apply (Hshift c2 q c3); auto; try (rewrite Hin2; auto); try lia. eapply Hstep; eauto. }
       destruct Hgo as (f2 & Hf2). exists (S (k2 + f2)). simpl. rewrite Eend', Hs.
       rewrite (rsteps_loop _ _ _ _ _ Hsteps). exact Hf2.
     + exists 1%nat. simpl. rewrite Eend', Hs. simpl. exact (handle_error_stop _ _ _ _ _ _ _ Ehe).
@@ -204,10 +206,17 @@ Hypothesis Hso : shift_ok_sound p.
 Hypothesis Hend : 0 <= rp_end p.
 
 (* Termination of the recovering parse from the validators: every configuration over table states and terminals *)
-Theorem rrun_terminates_checked : eoi_ends p -> forall c, rinv c -> exists f, fst (rrun_loop f p eh c) <> RFuel.
+Hypothesis Heoi : check_eoi m nstates (rp_end p) = true.
+
+Theorem rrun_terminates_checked : forall c, rinv c -> exists f, fst (rrun_loop f p eh c) <> RFuel.
 Proof.
-  intros Heoi. apply (rrun_terminates_inv p eh Hnm Hso Hend rinv rstep_rinv); [|exact Heoi].
-  intros c Hinv. eapply redterm_terminates; eauto. apply rinv_xinv. exact Hinv.
+  apply (rrun_terminates_inv p eh Hnm Hso Hend rinv rstep_rinv).
+  - intros c Hinv. eapply redterm_terminates; eauto. apply rinv_xinv. exact Hinv.
+  - intros c q (Hne & Hall & Hst & _) Hq.
+    assert (Hs : 0 <= xc_state (rc_x c) < nstates).
+    { rewrite Hst. destruct (xc_stack (rc_x c)) as [|e0 s0]; [congruence|]. inversion Hall; subst. assumption. }
+    unfold check_eoi in Heoi. rewrite forallb_forall in Heoi.
+    specialize (Heoi _ (proj2 (in_zrange0 _ _) Hs)). rewrite Hq in Heoi. apply Z.eqb_eq in Heoi. exact Heoi.
 Qed.
 
 (* the initial configuration of a parse *)
@@ -219,3 +228,18 @@ Proof.
 Qed.
 
 End I.
+
+(* the statement used by Props/C19.v: every configuration of the invariant, and every parse from a table state *)
+Theorem rrun_terminates_validated p eh nstates T NS F :
+  lalr1 p -> shift_ok_sound p -> 0 <= rp_end p ->
+  check_range (rp_m p) nstates T NS = true -> check_redterm (rp_m p) nstates T NS F = true ->
+  check_eoi (rp_m p) nstates (rp_end p) = true ->
+  0 <= rp_err_sym p < NS -> m_goto (rp_m p) (-1) (rp_err_sym p) = -1 ->
+  (forall c, rinv nstates T c -> exists f, fst (rrun_loop f p eh c) <> RFuel) /\
+  (forall start input, 0 <= start < nstates -> Forall (fun t => 0 <= t_sym t < T) input ->
+     exists f, fst (rrun f p eh start input) <> RFuel).
+Proof.
+  intros Hnm Hso Hend Hrg Hrt Heoi Herr Hm1.
+  pose proof (rrun_terminates_checked p eh nstates T NS F Hnm Hrg Herr Hm1 Hrt Hso Hend Heoi) as H.
+  split; [exact H|]. intros start input Hs Ht. unfold rrun. apply H. apply rinv_init; assumption.
+Qed.
